@@ -130,8 +130,8 @@ func c03Oracle(p *Plan) *Verdict {
 		v.Incidental = append(v.Incidental, "hang")
 		return v
 	}
-	if facts["path"] == "passthrough" && p.Note != "" {
-		return v // the transcoder is not in the data path; C13 checks that it forwards unchanged
+	if facts["path"] == "passthrough" && (p.Note != "" || p.RPCs[0].Backend.Resp.StrayHTTPTrailer) {
+		return v // the transcoder is not in the data path; C13 checks that it forwards unchanged (a misbehaving backend's bytes included)
 	}
 	checkClientResponse(v, p, r, 0, facts)
 	return v
@@ -143,12 +143,44 @@ func init() {
 		Level: "exploration",
 		Rule: "seeded single-RPC scenarios; half well-formed (success, error before/after k messages, trailers-only, both trailer styles, per-message compression flags, declared content length), " +
 			"half with one scripted backend misbehaviour (cut mid-frame, missing end, garbage end frame, wrong Content-Length, bare HTTP status with arbitrary body, bad flags/lengths, non-numeric or out-of-range grpc-status, " +
-			"garbage body, wrong content-type); the response-writer event history goes through a strict validator for the client's own protocol and the exactly-one-terminal count; " +
+			"garbage body, wrong content-type), and an eighth with an end of RPC (error message, trailing metadata) larger than a small message limit; the response-writer event history goes through a strict validator for the client's own protocol and the exactly-one-terminal count; " +
 			"distinct = (form>target/path/shape/misbehaviour, schedule hash); non-trivial = a response was produced",
 		Gen: func(c *Chooser, tier string) *Plan {
 			p := genScenario(c, ScenOpts{MaxMsgs: 3, MaxBytes: 100, Segment: c.Prob(0.3)})
 			if p == nil {
 				return nil
+			}
+			if c.Prob(0.12) {
+				// the end of the RPC is larger than the service's message limit (long error message or a lot of trailing
+				// metadata under a small limit): it still has to be exactly one well-formed disposition
+				svc := &p.Config.Services[0]
+				L := Pick(c, 512, 2048, 4096)
+				rp := &p.RPCs[0].Backend.Resp
+				rc := &p.RPCs[0]
+				n := refNegotiate(svc, rc.Client.Form, rc.Client.Codec, rc.Client.Compression)
+				fits := true
+				for _, ms := range append(append([]MsgSpec{}, p.RPCs[0].Client.Msgs...), rp.Msgs...) {
+					for _, codec := range []string{rc.Client.Codec, n.Codec} {
+						if sizeUnder(codec, ms.Data) > L || sizeUnderRef(codec, ms.Data) > L {
+							fits = false
+						}
+					}
+				}
+				if fits {
+					svc.MaxMsg = uint32(L)
+					if c.Bool() {
+						rp.Err = &ErrSpec{Code: c.Range(1, 16), Msg: strings.Repeat("long error text ", L/16+c.Range(1, 8))}
+						if c.Bool() {
+							rp.Msgs = nil
+						}
+					} else {
+						for i := 0; i < L/32+4; i++ {
+							rp.Trailers = append(rp.Trailers, [2]string{fmt.Sprintf("X-Bulk-%d", i), strings.Repeat("v", 24)})
+						}
+					}
+					p.Note = "end-over-limit"
+					return p
+				}
 			}
 			if c.Bool() {
 				// behaviours the transcoder can answer with a valid response: nothing malformed has been forwarded yet
